@@ -52,6 +52,8 @@ const (
 type message struct {
 	data   []byte
 	offset uint32
+	// set when a string or the parameter list lacks its NUL terminator
+	malformed bool
 }
 
 func (b *message) ReadUint32() (r uint32) {
@@ -63,12 +65,17 @@ func (b *message) ReadUint32() (r uint32) {
 func (b *message) ReadString() (r string) {
 	maximum := uint32(len(b.data))
 	if b.offset >= maximum {
-		// nothing left (e.g. the previous string was not terminated)
+		// nothing left: the terminator of the parameter list is missing
 		b.offset = maximum
+		b.malformed = true
 		return ""
 	}
 	end := b.offset
 	for ; end != maximum && b.data[end] != 0; end++ {
+	}
+	if end == maximum {
+		// the string is not terminated
+		b.malformed = true
 	}
 	r = string(b.data[b.offset:end])
 	b.offset = end + 1
@@ -139,6 +146,10 @@ func (m *MatchPostgres) Match(cx *layer4.Connection) (bool, error) {
 		startup.Parameters[k] = b.ReadString()
 	}
 	// TODO(metafeather): match on param values: user, database, options, etc
+
+	if b.malformed {
+		return false, nil
+	}
 
 	return len(startup.Parameters) > 0, nil
 }
